@@ -44,6 +44,7 @@ func init() {
 			{ID: "C15.R25", Text: "a checkpoint beyond the bucket's high sequence number reaches the guard that refuses it: the file backend returns what the file holds, whatever bucket id a document carries (same rule as C02.R15)", Run: fileLoadExact},
 			{ID: "C15.R26", Text: "error discipline, module-wide: of every call that hands back an error, the failure reaches whoever asked (returned, panicked, sent, handed to a continuation, wrapped and then one of these — or a panic / error return that runs only where it is non-nil); the sites where it does not are the ones confirmed by reading (frozen table: package, callee, count, reason)", Run: errorDiscipline},
 			{ID: "C15.R27", Text: "the checkpoint-ahead guard compares with the current answer of the server: no caching, retrying or limiting layer in front of a collaborator that is not a proven pass-through (same rules as C20.R19 and C20.R20)", Run: func(c *Ctx, id string) { decoratorsTransparent()(c, id); noNewLayers(c, id) }},
+			{ID: "C15.R28", Text: "a stream that cannot be opened is seen by the fail-stop logic: openStream waits for nothing but its request (same rule as C11.R26)", Run: openDoesNotWait},
 			{ID: "C15.R6", Text: "bounded reopen then fail-stop (same rule as C12.R3)", Run: c12r3},
 		},
 	})
